@@ -47,6 +47,11 @@ def PageMatches (sp : StackPage Node) (st : Store Node) : Prop :=
   sp.page.nodes.length = 126 ∧
   ∀ q, q ≠ [] → q.length ≤ 256 → specPage q = sp.pageId → sp.page.nodes.getD (specIndex q) H.term = st q
 
+/-- an output page is the page as it was when it was popped: its slots are what the logged store held -/
+def OutMatches (o : PageOut Node) (log : List (PageId × Store Node)) : Prop :=
+  ∃ P pg d b st, o = .updated P pg d b ∧ (P, st) ∈ log ∧ pg.nodes.length = 126 ∧
+    ∀ q, q ≠ [] → q.length ≤ 256 → specPage q = P → pg.nodes.getD (specIndex q) H.term = st q
+
 structure Sim (ps : PageSet Node) (w : Walker Node) (a : TW Node) : Prop where
   wf : w.position.WF
   pos : w.position.path = a.pos
@@ -58,6 +63,7 @@ structure Sim (ps : PageSet Node) (w : Walker Node) (a : TW Node) : Prop where
   counters : ∀ sp ∈ w.stack, CountersOK sp
   norecon : w.reconstruction = false
   cpr : w.childPageRoots.map (fun e => (e.1.path, e.2)) = a.cpr
+  outs : ∀ o ∈ w.outputPages, OutMatches H o a.log
 
 /-! ## slots and paths -/
 
@@ -138,7 +144,7 @@ theorem sim_update_top {w : Walker Node} {a : TW Node} (h : Sim H ps w a) (top :
     (hid : top'.pageId = top.pageId) (hc : CountersOK top')
     (hm : PageMatches H top' st') (hrest : ∀ sp ∈ rest, PageMatches H sp st') (hroot : st' [] = a.store []) :
     Sim H ps { w with stack := top' :: rest } { a with store := st' } := by
-  refine ⟨h.wf, h.pos, ?_, ?_, ?_, ?_, ?_, ?_, h.norecon, h.cpr⟩
+  refine ⟨h.wf, h.pos, ?_, ?_, ?_, ?_, ?_, ?_, h.norecon, h.cpr, h.outs⟩
   · show w.root = st' []
     rw [hroot]; exact h.root
   · constructor
